@@ -92,3 +92,12 @@ func unixProcAttrFauxTTY() *syscall.SysProcAttr {
 		//Pgid: 0, // Child's process group ID if Setpgid.
 	}
 }
+
+// signalledExitNum is the exit number of a process that was ended by a signal:
+// 128 + signal number, like POSIX shells
+func signalledExitNum(ps *os.ProcessState) int {
+	if ws, ok := ps.Sys().(syscall.WaitStatus); ok && ws.Signaled() {
+		return 128 + int(ws.Signal())
+	}
+	return 1
+}
